@@ -2319,6 +2319,12 @@ def check_C20(tier, seed, replay=None):
         raise P.Inconclusive("Bootstrap.tla did not finish:\n" + r["out"][-2000:])
     rd = os.path.join(P.VERIF, "replays", "C20")
     changed = [f for f in gen_tracked if digest(f) != before_all[f]]
+    # the other documented route to the static-code string tables: the //go:generate directives of builder/static_code*.go
+    # (the generator then runs inside builder/ with bare file names)
+    p2 = subprocess.run(["go", "generate", "-tags", "static_code", "./builder"], cwd=wt, stdout=subprocess.PIPE, stderr=subprocess.STDOUT, env=P.ENV, timeout=900)
+    if p2.returncode != 0:
+        raise P.Inconclusive("go generate ./builder failed in the scratch copy:\n" + p2.stdout.decode(errors="replace")[-1500:])
+    changed += [f for f in gen_tracked if f not in changed and digest(f) != before_all[f]]
     for f in changed:
         os.makedirs(rd, exist_ok=True)
         a = open(os.path.join(P.REPO, f), errors="replace").read().split("\n")
